@@ -96,6 +96,7 @@ class VClock(object):
         self.now = start
         self.tick = tick
         self.reads = 0
+        self.local_offset = 0.0      # seconds east of UTC of the host's local time, as seen by the recorder module only
 
     def time(self):
         self.reads += 1
@@ -111,7 +112,7 @@ class VClock(object):
     def utc(self):
         return _dt.datetime(1970, 1, 1) + _dt.timedelta(seconds=self.now)
 
-    def datetime_class(self):
+    def datetime_class(self, local=False):
         clock = self
 
         class VDateTime(_dt.datetime):
@@ -121,11 +122,15 @@ class VClock(object):
 
             @classmethod
             def today(cls):
-                return clock.utc()      # the process clock is UTC (assumption stated by C16)
+                # the process clock is UTC for the S3 cassette (assumption stated by C16); the recorder module may sit on a
+                # host whose local time is not UTC
+                return clock.utc() + _dt.timedelta(seconds=clock.local_offset if local else 0.0)
 
             @classmethod
             def now(cls, tz=None):
-                return clock.utc()
+                if tz is not None:
+                    return _dt.datetime.fromtimestamp(clock.now, tz)
+                return clock.utc() + _dt.timedelta(seconds=clock.local_offset if local else 0.0)
         return VDateTime
 
 
@@ -133,7 +138,7 @@ def clock_pairs(clock):
     dtc = clock.datetime_class()
     return [
         ('playback.tape_recorder', 'time', clock.time),
-        ('playback.tape_recorder', 'datetime', dtc),
+        ('playback.tape_recorder', 'datetime', clock.datetime_class(local=True)),
         ('playback.utils.timing_utils', 'time', clock.time),
         ('playback.tape_cassettes.s3.s3_tape_cassette', 'datetime', dtc),
     ]
